@@ -26,13 +26,13 @@
      MasterReproduced  for every item and every master m that supplies it,
                        |Eval(vf.item, Normalized(m.loc)) - m.val| <= 1/2
      AxisMapping       Normalize_VF(user) = NormalizeDesign(map(user)) for every knot, every
-                       point half way between knots and points outside the axis range
+                       point half way between neighbouring knots and points outside the axis range
      SparseOK          an item a sparse master does not supply is built from the sub-model of
                        the masters that do: no region of the item peaks at the absent master,
                        and there the item takes the sub-model's interpolated value (up to the
                        accumulated rounding of the deltas, RoundingBudget)
 
-   BUILD, as actions over (pc, nlocs, order, sups, vf):
+   BUILD, as actions over (pc, ds, nlocs, order, vf):
      Normalise  master design locations -> normalised locations through the axis maps
                 (refused unless the axes meet the stated requirements and exactly one master
                 sits at the default location)
